@@ -261,6 +261,23 @@ fn channel_test(c: &ChCase, obs: &mut Obs) -> CheckResult {
     Ok(())
 }
 
+/// Identity also has to survive the sender's own hiccups: TCP probes re-issued under the next
+/// sequence after address-in-use, probes that failed to send in between.
+fn faults_test(c: &SimCase, obs: &mut Obs) -> CheckResult {
+    let log = run_trace(&c.cfg, &c.world);
+    let Some(truth) = c01::check_outcomes(&log, obs)? else {
+        return Ok(());
+    };
+    let reissued = truth.rounds.iter().flatten().filter(|e| matches!(e, Expected::Skipped)).count();
+    let answered = truth.rounds.iter().flatten().filter(|e| matches!(e, Expected::Complete { .. })).count();
+    if reissued > 0 && answered > 0 {
+        obs.class("nontrivial");
+        obs.nontrivial(&(c.cfg.cell(), reissued, answered, truth.rounds.len()));
+    }
+    obs.sample(json!({"cfg": c.cfg.cell(), "reissued": reissued, "answered": answered}));
+    Ok(())
+}
+
 fn quote_class(q: Quote) -> &'static str {
     match q {
         Quote::Min => "min",
@@ -482,6 +499,14 @@ pub fn check() -> PropertyCheck {
                 thorough: 2_000_000,
                 strat,
                 test,
+                max_shrink: 3000,
+            }),
+            Box::new(Pbt {
+                name: "identity-faults",
+                quick: 40_000,
+                thorough: 1_500_000,
+                strat: super::c10::fault_strat,
+                test: faults_test,
                 max_shrink: 3000,
             }),
             Box::new(Pbt {
